@@ -76,9 +76,9 @@ def gen_column(rng, descr, utrench=False):
         y_max = y_min + 0.2
     kw = dict(x_center=descr['x_center'] + rng.choice([0.0, 0.1, -0.3]), y_min=y_min, y_max=y_max,
               bridge=rng.choice([0.026, 0.02, 0.04]), length=rng.choice([0.3, 1.0, 1.5]), beam_waist=rng.choice([0.004, 0.002]),
-              round_corner=rng.choice([0.010, 0.005, 0.0]), delta_floor=rng.choice([0.002, 0.004]), safe_inner_turns=rng.choice([2, 3]),
+              round_corner=rng.choice([0.010, 0.005, 0.0]), delta_floor=rng.choice([0.004, 0.008]), safe_inner_turns=rng.choice([2, 3]),
               nboxz=rng.choice([1, 2, 3]), h_box=rng.choice([0.05, 0.075]), z_off=rng.choice([-0.02, 0.0, -0.035]),
-              deltaz=rng.choice([0.0015, 0.01, 0.007]), speed_wall=rng.choice([4.0, 2.5]), speed_floor=rng.choice([None, 3.0]),
+              deltaz=rng.choice([0.02, 0.01, 0.007, 0.033]), speed_wall=rng.choice([4.0, 2.5]), speed_floor=rng.choice([None, 3.0]),
               speed_closed=rng.choice([5.0, 10.0]), u=rng.choice([None, [30.0, 32.5], []]), base_folder=rng.choice(['', 'C:/lab/pgm']))
     if utrench:
         kw.update(n_pillars=rng.choice([0, 1, 2]), pillar_width=rng.choice([0.04, 0.02]))
